@@ -88,6 +88,16 @@ func ReplayTrack(xs ...any) {
 			snap := reflect.New(v.Type().Elem())
 			snap.Elem().Set(v.Elem())
 			replayTracked = append(replayTracked, trackedMem{v, snap})
+		case reflect.Map:
+			if v.IsNil() {
+				continue
+			}
+			snap := reflect.MakeMapWithSize(v.Type(), v.Len())
+			it := v.MapRange()
+			for it.Next() {
+				snap.SetMapIndex(it.Key(), it.Value())
+			}
+			replayTracked = append(replayTracked, trackedMem{v, snap})
 		}
 	}
 }
@@ -131,6 +141,17 @@ func memRange(v reflect.Value) (lo, hi uintptr, ok bool) {
 func (r *runtime) fresh(a any) bool {
 	v := reflect.ValueOf(a)
 	if !v.IsValid() {
+		return true
+	}
+	if v.Kind() == reflect.Map {
+		if v.IsNil() {
+			return true
+		}
+		for _, t := range replayTracked {
+			if t.cur.Kind() == reflect.Map && t.cur.Pointer() == v.Pointer() {
+				return false
+			}
+		}
 		return true
 	}
 	if v.Kind() != reflect.Slice && v.Kind() != reflect.Pointer {
@@ -290,7 +311,23 @@ func deepEq(a, b reflect.Value, depth int) bool {
 	case reflect.Pointer, reflect.Chan, reflect.UnsafePointer:
 		return a.Pointer() == b.Pointer()
 	case reflect.Map:
-		panic(Inconclusive{"Eq on maps"})
+		// extensional: the same keys with equal values (keys compared by Go equality)
+		if a.IsNil() || b.IsNil() {
+			if a.IsNil() != b.IsNil() {
+				return false
+			}
+		}
+		if a.Len() != b.Len() {
+			return false
+		}
+		it := a.MapRange()
+		for it.Next() {
+			bv := b.MapIndex(it.Key())
+			if !bv.IsValid() || !deepEq(it.Value(), bv, depth+1) {
+				return false
+			}
+		}
+		return true
 	case reflect.Slice:
 		if a.Len() != b.Len() {
 			return false
